@@ -137,7 +137,9 @@ def palette_swaps(F, S):
     rp = F.fn(A + "::ReadPalette", nparams=2)
     wp = F.fn(A + "::WritePalettes", nparams=1)
     # reader: one swap per colour of the palette just read, after the read
-    art = ("var", rp.params[1]["n"], rp.params[1]["d"])
+    # the sprite file being filled: the ArtFile handed in, or the object itself when the helper is a member function
+    artp = [("var", p["n"], p["d"]) for p in rp.params if (p.get("rec") or "") == A]
+    art = artp[0] if artp else ("this",)
     pals = ("mem", art, "palettes")
     sw = swapped_containers(F, rp)
     reads = [nd for nd in rp.nodes if nd["k"] == "CXXMemberCallExpr" and nd.get("fname") == "Read" and element_of(rp, rp.term(nd["args"][0]), pals)]
@@ -279,30 +281,36 @@ def validations(F, S):
 
 
 def frame_init(F, S):
-    """ReadFrame: the four optional bytes are defined on every path (assigned or read)."""
+    """ReadFrame: the four optional bytes are defined on every path (assigned, value-initialised, read, or filled by a helper
+    they are handed to) where the frame is returned."""
+    from ..rules_init import local_defined
     fn = F.fn(A + "::ReadFrame", nparams=1)
-    eng = Engine(F, S)
-    eng.analyze(fn, frozenset())
     rets = returns(fn)
     out = []
-    assigned = set()
-    g = eng.cfg(fn)
-    # definite assignment: fields stored in blocks that dominate the return
-    dom = g.dominators()
-    eb = g.elem_block()
-    rb = eb.get(rets[0]["id"], (None,))[0] if rets else None
-    for nd in fn.nodes:
-        if is_store(nd) and nd.get("op") == "=":
-            t = fn.term(fn.kids(nd["id"])[0])
-            if t[0] == "mem" and t[1][0] == "var" and nd["id"] in eb and rb is not None and eb[nd["id"]][0] in dom.get(rb, set()):
-                assigned.add(t[2])
     inst = A + "::ReadFrame#optional-defined"
     req = "optional1..optional4 are assigned on every path before the frame is returned (the conditional reads may not happen)"
-    need = {"optional1", "optional2", "optional3", "optional4"}
-    if need <= assigned:
-        out.append(ok("R-INIT", inst, fn.loc(fn.body), fn.qn, req, "all four stores dominate the return"))
+    need = {("optional1",), ("optional2",), ("optional3",), ("optional4",)}
+    rv = {fn.term(r["value"]) for r in rets}
+    if len(rv) != 1 or list(rv)[0][0] != "var":
+        raise AnalysisBroken("ArtFile::ReadFrame: expected to return one local frame")
+    var = list(rv)[0]
+    rec = None
+    for nd in fn.nodes:
+        if nd["k"] == "DeclStmt":
+            for d in nd.get("decls", []):
+                if ("var", d.get("n"), d.get("d")) == var:
+                    rec = d.get("rec")
+    if not rec:
+        raise AnalysisBroken("ArtFile::ReadFrame: the returned local's type was not found")
+    defined = None
+    for r in rets:
+        dd = local_defined(F, S, fn, var, rec, r["id"])
+        defined = dd if defined is None else (defined & dd)
+    missing = need - (defined or set())
+    if not missing:
+        out.append(ok("R-INIT", inst, fn.loc(fn.body), fn.qn, req, "all four are defined where the frame is returned"))
     else:
-        out.append(bad("R-INIT", inst, fn.loc(fn.body), fn.qn, req, "not definitely assigned: %s" % ", ".join(sorted(need - assigned))))
+        out.append(bad("R-INIT", inst, fn.loc(fn.body), fn.qn, req, "not definitely assigned: %s" % ", ".join(sorted(p[0] for p in missing))))
     return out
 
 
@@ -327,11 +335,17 @@ def check(F, run, tier):
     run.add(c20.frame_layers(F, S))
     run.add(palette_swaps(F, S))
     k = 0
-    for q, np_ in (("OP2Utility::ArtFile::WritePalettes", 1), ("OP2Utility::ArtFile::WriteAnimations", 1), ("OP2Utility::ArtFile::WriteAnimation", 2),
-                   ("OP2Utility::PaletteHeader::CreatePaletteHeader", 0)):
-        o, c = r_narrow(F, S, F.fn(q, nparams=np_), explicit_only=True)
+    # every function the sprite writer runs (however it is split up), plus the palette header factory
+    from ..through import closure
+    wr_ = F.fn(A + "::Write", nparams=1, pred=lambda f: "Writer &" in f.key)
+    swept = [f for f in closure(F, wr_, depth=3) if f.key != wr_.key]
+    swept += [f for f in closure(F, F.fn("OP2Utility::PaletteHeader::CreatePaletteHeader", nparams=0), depth=1) if f.key not in {x.key for x in swept}]
+    for f_ in swept:
+        o, c = r_narrow(F, S, f_, explicit_only=True)
+        # (64-bit accumulations of container sizes in counting helpers are not conversions into a file field)
+        o = [x for x in o if "accumulation in" not in x.required]
         run.add(o)
-        k += c
+        k += len(o)
     run.floor("R-NARROW", k, 7)
     run.add(frame_init(F, S))
     run.add(run_witnesses(F, "C10", WITNESSES))
